@@ -361,6 +361,11 @@ class Pervaporation:
             )
 
         for step in range(len(time)):
+            if not feed_mass[step] > 0:
+                raise ValueError(
+                    "Feed is exhausted at step %s, decrease the step size or the number of steps"
+                    % step
+                )
             partial_fluxes.append(
                 self.calculate_partial_fluxes(
                     feed_temperature=conditions.initial_feed_temperature,
@@ -478,6 +483,16 @@ class Pervaporation:
         feed_mass: typing.List[float] = [conditions.initial_feed_amount]
 
         for step in range(len(time)):
+            if not feed_mass[step] > 0:
+                raise ValueError(
+                    "Feed is exhausted at step %s, decrease the step size or the number of steps"
+                    % step
+                )
+            if not feed_temperature[step] > 0:
+                raise ValueError(
+                    "Feed temperature is not positive at step %s, decrease the step size"
+                    % step
+                )
 
             evaporation_heat_1 = (
                 self.mixture.first_component.get_vaporisation_heat(
@@ -1074,6 +1089,11 @@ class Pervaporation:
             )
 
         for step in range(len(time)):
+            if not feed_mass[step] > 0:
+                raise ValueError(
+                    "Feed is exhausted at step %s, decrease the step size or the number of steps"
+                    % step
+                )
 
             partial_fluxes.append(
                 self.calculate_partial_fluxes(
@@ -1346,6 +1366,16 @@ class Pervaporation:
         )
 
         for step in range(len(time)):
+            if not feed_mass[step] > 0:
+                raise ValueError(
+                    "Feed is exhausted at step %s, decrease the step size or the number of steps"
+                    % step
+                )
+            if not feed_temperature[step] > 0:
+                raise ValueError(
+                    "Feed temperature is not positive at step %s, decrease the step size"
+                    % step
+                )
 
             evaporation_heat_1 = (
                 self.mixture.first_component.get_vaporisation_heat(
